@@ -171,7 +171,7 @@ class Py:
         self._wire = {}
 
     # ---- roots ----------------------------------------------------------
-    def roots(self, kinds=("S", "REQ", "RESP", "NOTIF", "ALIAS", "AND")):
+    def roots(self, kinds=("S", "REQ", "RESP", "NOTIF", "ALIAS", "AND", "ERR")):
         mm, T = self.mm, self.T
         out = []
         if "S" in kinds:
@@ -202,6 +202,13 @@ class Py:
         if "ALIAS" in kinds:
             for a in mm.A:
                 out.append(Root("ALIAS " + a, "ALIAS", a, self.carrier(a), lit([P("value", ref(a))])))
+        if "ERR" in kinds and getattr(T, "ResponseErrorMessage", None) is not None:
+            # the JSON-RPC error response: a hand-templated envelope (not a metamodel declaration) that
+            # the package exports in MESSAGE_TYPES; its shape is JSON-RPC 2.0's
+            from .mm import ID_T, base, strlit
+
+            err = lit([P("code", base("integer")), P("message", base("string")), P("data", ref("LSPAny"), optional=True)])
+            out.append(Root("ERR ResponseErrorMessage", "ERR", "ResponseErrorMessage", T.ResponseErrorMessage, lit([P("jsonrpc", strlit("2.0")), P("id", ID_T), P("error", err)])))
         return out
 
     def carrier(self, alias):
